@@ -27,9 +27,40 @@ PRE_VARIANTS = {
               dict(argv=['c.case', 'superfluous'])],
     'file-access': [dict(inject=('setup', 'including missing-file.xly')),
                     dict(inject=('cleanup', 'including missing-file.xly'))],
-    'preproc': [dict(pre_argv=['--preprocessor', 'false'])],
+    # exits non-zero; cannot be executed: no such program, a file that is not executable
+    'preproc': [dict(pre_argv=['--preprocessor', 'false']), dict(pre_argv=['--preprocessor', '/does/not/exist/preprocessor']),
+                dict(pre_argv=['--preprocessor', './c.case'])],
     'syntax': [dict(inject=('setup', 'no-such-instruction x')), dict(inject=('cleanup', 'verif-stub SYNTAX')),
                dict(inject=('assert', "exit-code == 'unterminated")), dict(append='[no-such-phase]\n')],
+}
+
+
+# REAL instructions (of the default instruction set / the bundled actors) that by themselves produce the outcome of
+# the model's alphabet at the given step: the classification "an error is an error, a failed assertion is a failure,
+# what can be checked beforehand is a validation error" is bound to real instructions, not only to the scripted stub.
+# For act steps: the contents of [act] ("CONF-LINE | ACT-LINE" selects an actor).
+REAL = {
+    ('main', 'conf', 've'): ['home = does-not-exist', 'act-home = does-not-exist'],
+    ('sym', 'setup', 've'): ['def string S = @[UNDEFINED_SYM]@', 'copy @[UNDEFINED_SYM]@'],
+    ('sym', 'act', 've'): ['$ echo @[UNDEFINED_SYM]@'],
+    ('sym', 'ba', 've'): ['def string S = @[UNDEFINED_SYM]@', 'cd @[UNDEFINED_SYM]@'],
+    ('sym', 'assert', 've'): ['exists @[UNDEFINED_SYM]@', 'contents f : UNDEFINED_MATCHER'],
+    ('sym', 'cleanup', 've'): ['def string S = @[UNDEFINED_SYM]@', 'dir @[UNDEFINED_SYM]@'],
+    ('pre', 'setup', 've'): ['copy does-not-exist', 'file f = -contents-of -rel-home does-not-exist'],
+    ('pre', 'act', 've'): ['does-not-exist-program arg'],
+    ('pre', 'ba', 've'): ['file f = -contents-of -rel-home does-not-exist', 'run does-not-exist-program'],
+    ('pre', 'assert', 've'): ['exit-code == not-an-integer', 'stdout equals -contents-of -rel-home does-not-exist'],
+    ('pre', 'cleanup', 've'): ['file f = -contents-of -rel-home does-not-exist', 'run does-not-exist-program'],
+    ('post', 'act', 'he_ret'): ['-rel-act does-not-exist-program', 'actor = file % python3 | -rel-act does-not-exist.py'],
+    ('main', 'setup', 'he_ret'): ['cd does-not-exist', 'dir f/g/../../../..', 'file f = -contents-of -rel-act does-not-exist'],
+    ('main', 'ba', 'he_ret'): ['cd does-not-exist', 'run % false', 'file f = -contents-of -rel-act does-not-exist'],
+    ('main', 'assert', 'he_ret'): ['cd does-not-exist', 'contents does-not-exist : is-empty',
+                                   'dir-contents does-not-exist : is-empty',
+                                   'stdout equals -contents-of -rel-act does-not-exist'],
+    ('main', 'assert', 'fail'): ['exists does-not-exist', 'stdout is-empty'],
+    ('main', 'cleanup', 'he_ret'): ['cd does-not-exist', 'run % false'],
+    ('parse', 'act', 'syntax'): ["'unterminated"],
+    ('execute', 'act', 'he_ret'): ['% does-not-exist-program-in-path'],
 }
 
 
@@ -40,6 +71,12 @@ def concretize(run):
     flag = MODE_FLAG[run['mode']]
     if run['pre'] == 'none':
         variants.append(dict(files={'c.case': base}, argv=flag + ['c.case']))
+        if run['atcExit'] in (0, 5):
+            variants.append(dict(files={'c.case': base}, argv=flag + ['--preprocessor', 'cat', 'c.case']))
+            for line in REAL.get((run['endStep'][0], run['endStep'][1], run['endO']), []):
+                text = casegen.scripted_case(run['tc'], tuple(run['endStep']), run['endO'], run['cleanupO'],
+                                             run['atcExit'], real=line)
+                variants.append(dict(files={'c.case': text}, argv=flag + ['c.case']))
         return variants
     for v in PRE_VARIANTS[run['pre']]:
         text = base
